@@ -104,7 +104,7 @@ def MuLt (n : Nat) (s' s : State) : Prop :=
 
 /-! ### every interface step decreases the rank -/
 
-set_option maxHeartbeats 8000000 in
+set_option maxHeartbeats 2000000 in
 theorem iface_rank {s s' : State} {t : Tid} {evs : List Ev}
     (hw : ∀ u ∈ s.pWait, (s.th u).pc = IPc.wBlocked) (ht : t ≠ 0)
     (hs : stepIface Cfg.fixed s t = some (s', evs)) :
@@ -131,7 +131,7 @@ theorem iface_rank {s s' : State} {t : Tid} {evs : List Ev}
 
 /-! ### solver steps: the interface ranks are untouched and the solver's distance shrinks -/
 
-set_option maxHeartbeats 8000000 in
+set_option maxHeartbeats 2000000 in
 theorem solver_rank {s s' : State} {evs : List Ev}
     (hw : ∀ u ∈ s.pWait, (s.th u).pc = IPc.wBlocked)
     (hrq : s.spc = SPc.relQ1 → s.queue = []) (hwq : s.spc = SPc.waitQ → s.queue = [])
